@@ -1,7 +1,9 @@
 //! mtmc – bounded exhaustive exploration of momtrop against the exact reference model.
 //! usage: mtmc <Cxx> --tier quick|thorough [--replay <file>]
 mod common;
+mod kernel;
 mod obs;
+mod sampler;
 mod scope;
 mod table;
 
@@ -46,6 +48,11 @@ fn main() {
             let case = &v["case"];
             match case["engine"].as_str().unwrap_or("") {
                 "table" => table::replay(&ctx, case),
+                "kernel" => match case["kind"].as_str().unwrap_or("") {
+                    "gamma" | "gamma-pair" => kernel::replay_gamma(case),
+                    "matrix" => kernel::replay_matrix(&ctx, case),
+                    _ => kernel::replay_vector(case),
+                },
                 other => {
                     eprintln!("unknown replay engine {other}");
                     2
@@ -54,6 +61,10 @@ fn main() {
         } else {
             match prop.as_str() {
                 "C03" | "C04" | "C05" => table::run(&ctx),
+                "C12" => kernel::run_c12(&ctx),
+                "C15" => kernel::run_c15(&ctx),
+                "C16" => kernel::run_c16(&ctx),
+                "C20" => kernel::run_c20(&ctx),
                 _ => {
                     eprintln!("no engine for {prop}");
                     2
